@@ -283,6 +283,24 @@ func (c *Cluster) settle() {
 		}
 		vsched.Interrupted()
 		if len(c.crashQ) == 0 {
+			// A goroutine waiting in WaitGroup.Wait (Stop) waits for the timer
+			// loops of its node, which only notice the shutdown when their
+			// sleep ends: real time passes for them, so let those timers fire.
+			fired := false
+			for _, t := range vsched.Tasks() {
+				if t.BlockKind != "waitgroup" {
+					continue
+				}
+				for _, sl := range vtime.LiveSleepers() {
+					if sl.Node == t.Node && !sl.Fired {
+						sl.Fired = true
+						fired = true
+					}
+				}
+			}
+			if fired {
+				continue
+			}
 			break
 		}
 		q := c.crashQ
@@ -551,7 +569,7 @@ func (c *Cluster) Inject1(e Event) error {
 			return fmt.Errorf("%s: n%d is down", e.K, e.N)
 		}
 		c.B.Members--
-		op := &ClientOp{ID: len(c.Ops), Kind: e.K, Node: e.N, Target: e.A, Voter: e.S == "voter"}
+		op := &ClientOp{ID: len(c.Ops), Kind: e.K, Node: e.N, Target: e.A, Voter: e.S == "voter", TargetID: c.Nodes[e.A].ID}
 		c.Ops = append(c.Ops, op)
 		c.Hist = append(c.Hist, fmt.Sprintf("i%d", op.ID))
 		r := n.R
@@ -772,6 +790,25 @@ func (c *Cluster) enabledAll() []Event {
 			ev = append(ev, Event{K: "tick", N: i})
 		}
 	}
+	if c.B.Members > 0 && !c.Cfg.Puppets {
+		for i, n := range c.Nodes {
+			if !n.Alive || views[i].State != raft.Leader || !views[i].HasConfiguration {
+				continue
+			}
+			conf := views[i].Configuration
+			for j, o := range c.Nodes {
+				_, member := conf.Members[o.ID]
+				switch {
+				case !member:
+					ev = append(ev, Event{K: "add", N: i, A: j, S: "nonvoter"}, Event{K: "add", N: i, A: j, S: "voter"})
+				case !conf.IsVoter[o.ID]:
+					ev = append(ev, Event{K: "add", N: i, A: j, S: "voter"}, Event{K: "remove", N: i, A: j})
+				default:
+					ev = append(ev, Event{K: "remove", N: i, A: j})
+				}
+			}
+		}
+	}
 	if c.B.ClientTimeouts > 0 {
 		for _, op := range c.Ops {
 			if !op.Resolved && !op.Gone {
@@ -919,6 +956,12 @@ func (c *Cluster) Tags() []string {
 	for _, op := range c.Ops {
 		if op.Resolved && op.Err == nil {
 			t = append(t, "op_acked")
+			break
+		}
+	}
+	for i := range c.Nodes {
+		if v, ok := c.View(i); ok && v.HasCommitted && v.Committed.Index > 1 {
+			t = append(t, "config_changed")
 			break
 		}
 	}
